@@ -4,6 +4,6 @@ import "time"
 
 func init() {
 	reg("C01", propCfg{Pkg: "./props/c01", QuickTimeout: 8 * time.Minute, ThoroughTimeout: 40 * time.Minute,
-		Rule: "generated sources run in a sandbox worker process; oracle = the host survives",
+		Rule:        "generated sources run in a sandbox worker process; oracle = the host survives",
 		Assumptions: assume("memory/stack exhaustion, unsynchronised map sharing between script goroutines, scripts that do not finish and time inside one host call are outside the guarantee and are counted as excluded", "a death of the worker is attributed to the case in flight because the worker only answers after the goroutines the script started have finished")})
 }
